@@ -155,9 +155,13 @@ where
                 .expect("Failed to record a get op");
         };
         let now = self.inner.current_time_from_expiration_clock();
+        #[cfg(mini_moka_verif)]
+        crate::verif::switch_point(crate::verif::site::GET_AFTER_CLOCK);
 
         match self.inner.get(key) {
             None => {
+                #[cfg(mini_moka_verif)]
+                crate::verif::switch_point(crate::verif::site::GET_BEFORE_RECORD);
                 record(ReadOp::Miss(hash), now);
                 None
             }
@@ -171,6 +175,8 @@ where
                 {
                     // Drop the entry to avoid to deadlock with record_read_op.
                     std::mem::drop(entry);
+                    #[cfg(mini_moka_verif)]
+                    crate::verif::switch_point(crate::verif::site::GET_BEFORE_RECORD);
                     // Expired or invalidated entry. Record this access as a cache miss
                     // rather than a hit.
                     record(ReadOp::Miss(hash), now);
@@ -181,6 +187,8 @@ where
                     let e = TrioArc::clone(arc_entry);
                     // Drop the entry to avoid to deadlock with record_read_op.
                     std::mem::drop(entry);
+                    #[cfg(mini_moka_verif)]
+                    crate::verif::switch_point(crate::verif::site::GET_BEFORE_RECORD);
                     record(ReadOp::Hit(hash, e, now), now);
                     Some(v)
                 }
@@ -215,6 +223,8 @@ where
 
     pub(crate) fn invalidate_all(&self) {
         let now = self.inner.current_time_from_expiration_clock();
+        #[cfg(mini_moka_verif)]
+        crate::verif::switch_point(crate::verif::site::INVALIDATE_ALL_AFTER_CLOCK);
         self.inner.set_valid_after(now);
     }
 }
@@ -256,6 +266,8 @@ where
         now: Instant,
     ) -> Result<(), TrySendError<ReadOp<K, V>>> {
         self.apply_reads_if_needed(self.inner.as_ref(), now);
+        #[cfg(mini_moka_verif)]
+        crate::verif::switch_point(crate::verif::site::READ_BEFORE_SEND);
         let ch = &self.read_op_ch;
         match ch.try_send(op) {
             // Discard the ReadOp when the channel is full.
@@ -272,6 +284,8 @@ where
         value: V,
     ) -> (WriteOp<K, V>, Instant) {
         let ts = self.inner.current_time_from_expiration_clock();
+        #[cfg(mini_moka_verif)]
+        crate::verif::switch_point(crate::verif::site::INSERT_AFTER_CLOCK);
         let weight = self.inner.weigh(&key, &value);
         let mut insert_op = None;
         let mut update_op = None;
@@ -382,6 +396,11 @@ where
         self.inner.set_expiration_clock(clock);
     }
 }
+
+#[cfg(mini_moka_verif)]
+mod verif_hooks;
+#[cfg(mini_moka_verif)]
+pub use verif_hooks::{VerifDeque, VerifEntryMeta};
 
 struct EvictionCounters {
     entry_count: u64,
@@ -648,6 +667,9 @@ where
     S: BuildHasher + Clone + Send + Sync + 'static,
 {
     fn sync(&self, max_repeats: usize) {
+        #[cfg(mini_moka_verif)]
+        let _verif_lock_scope =
+            crate::verif::LockScope::new(crate::verif::site::LOCK_ID_DEQUES);
         let mut deqs = self.deques.lock().expect("lock poisoned");
         let mut calls = 0;
         let mut should_sync = true;
@@ -661,6 +683,8 @@ where
             if r_len > 0 {
                 self.apply_reads(&mut deqs, r_len);
             }
+            #[cfg(mini_moka_verif)]
+            crate::verif::switch_point(crate::verif::site::SYNC_AFTER_READS);
 
             let w_len = self.write_op_ch.len();
             if w_len > 0 {
@@ -676,10 +700,14 @@ where
                 || self.write_op_ch.len() >= WRITE_LOG_FLUSH_POINT;
         }
 
+        #[cfg(mini_moka_verif)]
+        crate::verif::switch_point(crate::verif::site::SYNC_BEFORE_EXPIRE);
         if self.has_expiry() || self.has_valid_after() {
             self.evict_expired(&mut deqs, batch_size::EVICTION_BATCH_SIZE, &mut counters);
         }
 
+        #[cfg(mini_moka_verif)]
+        crate::verif::switch_point(crate::verif::site::SYNC_BEFORE_LRU);
         // Evict if this cache has more entries than its capacity.
         let weights_to_evict = self.weights_to_evict(&counters);
         if weights_to_evict > 0 {
@@ -691,6 +719,8 @@ where
             );
         }
 
+        #[cfg(mini_moka_verif)]
+        crate::verif::switch_point(crate::verif::site::SYNC_BEFORE_PUBLISH);
         debug_assert_eq!(self.entry_count.load(), current_ec);
         debug_assert_eq!(self.weighted_size.load(), current_ws);
         self.entry_count.store(counters.entry_count);
@@ -789,6 +819,8 @@ where
         let ch = &self.write_op_ch;
 
         for _ in 0..count {
+            #[cfg(mini_moka_verif)]
+            crate::verif::switch_point(crate::verif::site::SYNC_BETWEEN_WRITES);
             match ch.try_recv() {
                 Ok(Upsert {
                     key_hash: kh,
